@@ -3,6 +3,7 @@ import PdfModel.Lemmas.Sequence
 import PdfModel.Lemmas.Render
 import PdfModel.Lemmas.ParserCursor
 import PdfModel.Lemmas.RenderTail
+import PdfModel.Generated.Lexical
 
 /-!
   C03 — every spec-conformant spelling of an object parses to the value it denotes.
@@ -425,5 +426,26 @@ example :
     (match parse unitEnv sampleText.toArray Flags.any with
      | .ok (.arr [.int 1, .name [65, 32, 66], .str [97, 41, 43, 98], .str [65], .real ()], 34) => true
      | _ => false) = true := by decide +kernel
+
+end C03
+
+/-! ## Tie to the source: constants and byte classes (appended by the translator package)
+
+`Generated/Lexical.lean` is re-extracted from `pdf/src` by `./check` before this file is built. -/
+
+namespace C03
+
+/-- white-space, delimiter and regular characters of the lexer model and the parser's nesting bound are the ones of the source -/
+theorem constants_match_source :
+    ((List.range 256).filter (fun n => PdfLex.isWhitespace (UInt8.ofNat n)) = Generated.lexWhitespace) ∧
+    ((List.range 256).filter (fun n => PdfLex.isDelimiter (UInt8.ofNat n)) = Generated.lexDelimiters) ∧
+    ((List.range 256).filter (fun n => PdfLex.isRegular (UInt8.ofNat n)) =
+      (List.range 256).filter (fun n => !Generated.lexWhitespace.contains n && !Generated.lexDelimiters.contains n)) ∧
+    (PdfLex.maxDepth = Generated.parserMaxDepth) := by
+  refine ⟨?_, ?_, ?_, ?_⟩
+  · first | decide +kernel | fail "constants_match_source (C03): the model's PdfLex.isWhitespace does not match the source (Generated.lexWhitespace, re-extracted from pdf/src)"
+  · first | decide +kernel | fail "constants_match_source (C03): the model's PdfLex.isDelimiter does not match the source (Generated.lexDelimiters, re-extracted from pdf/src)"
+  · first | decide +kernel | fail "constants_match_source (C03): the model's PdfLex.isRegular does not match the source (Generated.lexDelimiters, Generated.lexWhitespace, re-extracted from pdf/src)"
+  · first | decide +kernel | fail "constants_match_source (C03): the model's PdfLex.maxDepth does not match the source (Generated.parserMaxDepth, re-extracted from pdf/src)"
 
 end C03
